@@ -9,7 +9,8 @@
   Q   vacuity canaries: the hypothesis sets (pre, pre+inv) are not refutable
   S   fg_id_numpy stage 1: E2 VCs of its index-building loop (dict of lists as (domain, element arrays,
       lengths)): p_id_to_index inverts p_id, children[x] lists exactly the persons naming x as a parent
-  F   fg_id_numpy as a whole (second loop: nested loop over concatenated lists, outside E2): bounded-EXHAUSTIVE over all typed
+      stage 2: E2 VCs of the assignment loop with an inner invariant for its nested loop: safety and range only
+  F   fg_id_numpy as a whole (the partition produced by the second loop: nested loop over concatenated lists, outside E2): bounded-EXHAUSTIVE over all typed
       pointer structures up to isomorphism and ALL row orders up to 4 persons (quick) / 5 persons
       (thorough) -- the bound the property itself names -- against specs/groupings_spec.py;
       labelled bounded, never counted as proved
@@ -30,11 +31,13 @@ from vt import kernels, par, solve
 from vt.report import ASSUMPTIONS, Report
 
 PROVED = ["eg_id_numpy", "ehe_id_numpy", "sn_id_numpy", "bg_id_numpy", "wthh_id_numpy"]
-# contracts of single stages of a kernel that is not proved as a whole: fg_id_numpy's index-building loop
-# (p_id_to_index inverts p_id; children lists sound, complete, never empty; no KeyError / IndexError), unbounded N.
+# contracts of single stages of a kernel that is not proved as a whole, unbounded N:
+#   #index  fg_id_numpy's index-building loop (p_id_to_index inverts p_id; children lists sound, complete, never empty)
+#   #assign its assignment loop incl. the nested loop over the concatenated children lists, under the postcondition of
+#           #index: SAFETY (no KeyError / IndexError on any path) and RANGE (everybody gets an id in [0, #units)) only
 # A stage contract speaks about internal state, so a refuted stage obligation is a violation only together with
 # a failing input of the whole kernel from the bounded-exhaustive run F; otherwise it is undecided.
-STAGES = ["fg_id_numpy#index"]
+STAGES = ["fg_id_numpy#index", "fg_id_numpy#assign"]
 
 
 def _vc_worker(name):
